@@ -58,7 +58,7 @@ theorem mem_teardown_live (s : Sys) (d : Nat) :
 theorem teardown_conns (s : Sys) (d : Nat) :
     (teardown s).conns d =
       if d ∈ s.live ∧ unpairedSession s.pairings (s.conns d) = true
-      then { pv := { (s.conns d).pv with verified := false } } else s.conns d := by
+      then { (s.conns d) with pv := { (s.conns d).pv with verified := false } } else s.conns d := by
   simp [teardown]
 
 @[simp] theorem teardown_pairings (s : Sys) : (teardown s).pairings = s.pairings := rfl
@@ -106,6 +106,17 @@ theorem safe_procReq (C : Crypto) (s : Sys) (c : Nat) (req : Req) (h : Safe s) :
       obtain ⟨u, hu, hp⟩ := h d hv
       exact ⟨u, hu, by simpa using hp⟩
   | guarded kind => exact safe_emit _ _ _ (safe_clock _ _ h)
+  | resource =>
+    simp only [procReq]
+    split
+    · intro d hv
+      by_cases hd : d = c
+      · subst hd
+        simp only [Sess.setConn, if_true] at hv ⊢
+        exact h d hv
+      · simp only [Sess.setConn, hd, if_false] at hv ⊢
+        exact h d hv
+    · exact safe_emit _ _ _ (safe_clock _ _ h)
   | listPairings =>
     simp only [procReq]
     split
@@ -172,6 +183,24 @@ theorem safe_step (C : Crypto) (s : Sys) (op : Op) (h : Safe s) : Safe (step C t
     intro d hv
     obtain ⟨v, hv', hp⟩ := h d hv
     exact ⟨v, hv', fun hl => getKey_addPairing_isSome _ _ _ _ _ (hp hl)⟩
+  | ready c ok =>
+    have key : Safe { s with conns := Sess.setConn s.conns c { (s.conns c) with pending := false }, clock := s.clock + 1 } := by
+      intro d hv
+      by_cases hd : d = c
+      · subst hd
+        simp only [Sess.setConn, if_true] at hv ⊢
+        exact h d hv
+      · simp only [Sess.setConn, hd, if_false] at hv ⊢
+        exact h d hv
+    simp only [step]
+    split
+    · split
+      · exact safe_emit _ _ _ key
+      · exact key
+    · exact safe_clock _ _ h
+  | restart =>
+    intro d hv
+    simp [step] at hv
 
 theorem safe_run (C : Crypto) (s : Sys) (ops : List Op) (h : Safe s) : Safe (run C true s ops) := by
   induction ops generalizing s with
@@ -180,11 +209,15 @@ theorem safe_run (C : Crypto) (s : Sys) (ops : List Op) (h : Safe s) : Safe (run
 
 /-! ### What a request can write, and to whom -/
 
+/-- An event that can only arise for a registered connection: a delivered response or a close of a
+    registered connection — or a response written into the void on the requesting connection. -/
+def EvOk (live : List Nat) (c : Nat) (e : Event) : Prop := e.conn ∈ live ∨ ∃ r, e = Event.dropped c r
+
 /-- the teardown appends closes of registered connections and only shrinks the registry -/
 theorem teardown_after (s t : Sys) (c : Nat)
-    (h : ∃ evs, t.trace = s.trace ++ evs ∧ (∀ e ∈ evs, e.conn = c ∨ e.conn ∈ s.live) ∧
+    (h : ∃ evs, t.trace = s.trace ++ evs ∧ (∀ e ∈ evs, EvOk s.live c e) ∧
       (∀ x, x ∈ t.live → x ∈ s.live)) :
-    ∃ evs, (teardown t).trace = s.trace ++ evs ∧ (∀ e ∈ evs, e.conn = c ∨ e.conn ∈ s.live) ∧
+    ∃ evs, (teardown t).trace = s.trace ++ evs ∧ (∀ e ∈ evs, EvOk s.live c e) ∧
       (∀ x, x ∈ (teardown t).live → x ∈ s.live) := by
   obtain ⟨e1, h1, h2, h3⟩ := h
   refine ⟨e1 ++ (t.live.filter fun d => unpairedSession t.pairings (t.conns d)).map Event.close, ?_, ?_, ?_⟩
@@ -193,31 +226,39 @@ theorem teardown_after (s t : Sys) (c : Nat)
     simp only [List.mem_append, List.mem_map, List.mem_filter] at he
     rcases he with he | ⟨x, ⟨hx, _⟩, rfl⟩
     · exact h2 e he
-    · right; exact h3 x hx
+    · left; exact h3 x hx
   · intro x hx
     simp only [teardown, List.mem_filter] at hx
     exact h3 x hx.1
 
-/-- Events appended by one request concern the requesting connection or are closes of
-    registered connections; the registry only shrinks. -/
+/-- Events appended by one request: responses that reach a registered requester, closes of
+    registered connections, or responses of the requester written into the void; the registry
+    only shrinks. -/
 theorem procReq_events (C : Crypto) (rep : Bool) (s : Sys) (c : Nat) (req : Req) :
     ∃ evs, (procReq C rep s c req).trace = s.trace ++ evs ∧
-      (∀ e ∈ evs, e.conn = c ∨ e.conn ∈ s.live) ∧
+      (∀ e ∈ evs, EvOk s.live c e) ∧
       (∀ x, x ∈ (procReq C rep s c req).live → x ∈ s.live) := by
   have one : ∀ (t : Sys) (r : RC), t.trace = s.trace → t.live = s.live →
-      ∃ evs, (emit t c r).trace = s.trace ++ evs ∧ (∀ e ∈ evs, e.conn = c ∨ e.conn ∈ s.live) ∧
+      ∃ evs, (emit t c r).trace = s.trace ++ evs ∧ (∀ e ∈ evs, EvOk s.live c e) ∧
         (∀ x, x ∈ (emit t c r).live → x ∈ s.live) := by
     intro t r ht hl
     refine ⟨[if c ∈ t.live then Event.resp c r else Event.dropped c r], by simp [ht], ?_, by simp [hl]⟩
     intro e he
     simp only [List.mem_singleton] at he
     subst he
-    split <;> simp [Event.conn]
+    split
+    · next hc => left; rw [hl] at hc; simpa [Event.conn] using hc
+    · right; exact ⟨r, rfl⟩
   cases req with
   | pairVerify body =>
     simp only [procReq]
     exact one s _ rfl rfl
   | guarded kind => simp only [procReq]; exact one _ _ rfl rfl
+  | resource =>
+    simp only [procReq]
+    split
+    · exact ⟨[], by simp, by simp, by simp⟩
+    · exact one _ _ rfl rfl
   | listPairings =>
     simp only [procReq]
     split
@@ -243,9 +284,15 @@ theorem procReq_events (C : Crypto) (rep : Bool) (s : Sys) (c : Nat) (req : Req)
           · simp only [if_true]
             exact teardown_after s _ c (one _ _ rfl rfl)
 
+theorem evOk_mono (l l' : List Nat) (c : Nat) (e : Event) (h : ∀ x, x ∈ l' → x ∈ l) (he : EvOk l' c e) :
+    EvOk l c e := by
+  rcases he with he | he
+  · exact Or.inl (h _ he)
+  · exact Or.inr he
+
 theorem procChunk_events (C : Crypto) (rep : Bool) (c : Nat) (s : Sys) (reqs : List Req) :
     ∃ evs, (procChunk C rep c s reqs).trace = s.trace ++ evs ∧
-      (∀ e ∈ evs, e.conn = c ∨ e.conn ∈ s.live) ∧
+      (∀ e ∈ evs, EvOk s.live c e) ∧
       (∀ x, x ∈ (procChunk C rep c s reqs).live → x ∈ s.live) := by
   induction reqs generalizing s with
   | nil => exact ⟨[], by simp [procChunk], by simp, by simp [procChunk]⟩
@@ -257,19 +304,49 @@ theorem procChunk_events (C : Crypto) (rep : Bool) (c : Nat) (s : Sys) (reqs : L
     · intro e he
       rcases List.mem_append.1 he with he | he
       · exact h2 e he
-      · rcases g2 e he with h | h
-        · exact Or.inl h
-        · exact Or.inr (h3 _ h)
+      · exact evOk_mono _ _ c e h3 (g2 e he)
     · intro x hx; exact h3 x (g3 x hx)
 
 theorem eventsOf_append (d : Nat) (a b : List Event) : eventsOf d (a ++ b) = eventsOf d a ++ eventsOf d b := by
   simp [eventsOf]
 
-/-- A connection that is not registered sees no further event and stays unregistered until a
-    new TCP connection with its id is made. -/
+/-- the responses that REACHED the peer of connection `d`, and the closes of `d` -/
+def reachedOf (d : Nat) (t : List Event) : List Event :=
+  t.filter fun e => match e with
+    | .resp c _ => c == d
+    | .close c => c == d
+    | .dropped _ _ => false
+
+theorem reachedOf_append (d : Nat) (a b : List Event) :
+    reachedOf d (a ++ b) = reachedOf d a ++ reachedOf d b := by
+  simp [reachedOf]
+
+/-- events that are fine for a registry without `d` never reach `d` -/
+theorem reachedOf_nil (d c : Nat) (live : List Nat) (evs : List Event) (hd : d ∉ live)
+    (h : ∀ e ∈ evs, EvOk live c e) : reachedOf d evs = [] := by
+  simp only [reachedOf, List.filter_eq_nil_iff]
+  intro e he
+  rcases h e he with h1 | ⟨r, rfl⟩
+  · cases e with
+    | resp x r => simp only [Event.conn] at h1; simp; intro e; subst e; exact hd h1
+    | close x => simp only [Event.conn] at h1; simp; intro e; subst e; exact hd h1
+    | dropped x r => simp
+  · simp
+
+/-- **An unregistered connection is never reached again** — also by the remaining requests of its
+    own segment (processed after it was closed): whatever they are, nothing reaches the peer. -/
+theorem procChunk_dead (C : Crypto) (rep : Bool) (c : Nat) (s : Sys) (reqs : List Req) (d : Nat)
+    (hd : d ∉ s.live) :
+    d ∉ (procChunk C rep c s reqs).live ∧
+      reachedOf d (procChunk C rep c s reqs).trace = reachedOf d s.trace := by
+  obtain ⟨evs, h1, h2, h3⟩ := procChunk_events C rep c s reqs
+  refine ⟨fun h => hd (h3 d h), ?_⟩
+  rw [h1, reachedOf_append, reachedOf_nil d c s.live evs hd h2]
+  simp
+
 theorem step_dead (C : Crypto) (rep : Bool) (s : Sys) (op : Op) (d : Nat)
     (hd : d ∉ s.live) (hop : op ≠ .connect d) :
-    d ∉ (step C rep s op).live ∧ eventsOf d (step C rep s op).trace = eventsOf d s.trace := by
+    d ∉ (step C rep s op).live ∧ reachedOf d (step C rep s op).trace = reachedOf d s.trace := by
   cases op with
   | connect c =>
     have hc : c ≠ d := fun e => hop (by rw [e])
@@ -284,31 +361,132 @@ theorem step_dead (C : Crypto) (rep : Bool) (s : Sys) (op : Op) (d : Nat)
     simp only [step, List.mem_filter, not_and]
     intro h; exact absurd h hd
   | pair u k a => exact ⟨hd, rfl⟩
+  | restart => exact ⟨by simp [step], rfl⟩
+  | ready c ok =>
+    simp only [step]
+    split
+    · split
+      · next _ hc =>
+        refine ⟨hd, ?_⟩
+        have : c ≠ d := fun e => hd (e ▸ hc)
+        simp [emit_trace, reachedOf_append, reachedOf, hc, this]
+      · exact ⟨hd, rfl⟩
+    · exact ⟨hd, rfl⟩
   | chunk c reqs =>
     simp only [step]
     split
-    · next hc =>
-      obtain ⟨evs, h1, h2, h3⟩ := procChunk_events C rep c s reqs
-      refine ⟨fun h => hd (h3 d h), ?_⟩
-      rw [h1, eventsOf_append]
-      have : eventsOf d evs = [] := by
-        simp only [eventsOf, List.filter_eq_nil_iff, beq_iff_eq]
-        intro e he heq
-        rcases h2 e he with h | h
-        · rw [heq] at h; subst h; exact hd hc
-        · rw [heq] at h; exact hd h
-      simp [this]
+    · exact procChunk_dead C rep c s reqs d hd
     · exact ⟨hd, rfl⟩
 
 theorem run_dead (C : Crypto) (rep : Bool) (s : Sys) (ops : List Op) (d : Nat)
     (hd : d ∉ s.live) (hops : ∀ op ∈ ops, op ≠ .connect d) :
-    d ∉ (run C rep s ops).live ∧ eventsOf d (run C rep s ops).trace = eventsOf d s.trace := by
+    d ∉ (run C rep s ops).live ∧ reachedOf d (run C rep s ops).trace = reachedOf d s.trace := by
   induction ops generalizing s with
   | nil => exact ⟨hd, rfl⟩
   | cons op rest ih =>
     have h1 := step_dead C rep s op d hd (hops op List.mem_cons_self)
     have h2 := ih (step C rep s op) h1.1 (fun o ho => hops o (List.mem_cons_of_mem _ ho))
     exact ⟨h2.1, by simp only [run]; rw [h2.2, h1.2]⟩
+
+/-! ### Which answers are service, and what they presuppose -/
+
+/-- response classes that give the requester something: content, an effect, the pairing list -/
+def useful : RC → Bool
+  | .served _ => true
+  | .list _ => true
+  | .ack => true
+  | _ => false
+
+theorem emit_resp (s t : Sys) (c : Nat) (r0 r : RC) (evs : List Event)
+    (ht : t.trace = s.trace) (hl : t.live = s.live)
+    (h : (emit t c r0).trace = s.trace ++ evs) (hm : Event.resp c r ∈ evs) : c ∈ s.live ∧ r = r0 := by
+  rw [emit_trace, ht] at h
+  have := List.append_cancel_left h
+  subst this
+  simp only [List.mem_singleton] at hm
+  split at hm
+  · next hc => rw [hl] at hc; simp only [Event.resp.injEq, true_and] at hm; exact ⟨hc, hm⟩
+  · cases hm
+
+/-- A delivered useful answer presupposes a registered, verified requester. -/
+theorem procReq_useful (C : Crypto) (rep : Bool) (s : Sys) (c : Nat) (req : Req) (r : RC) (evs : List Event)
+    (h : (procReq C rep s c req).trace = s.trace ++ evs) (hm : Event.resp c r ∈ evs) (hu : useful r = true) :
+    c ∈ s.live ∧ (s.conns c).pv.verified = true := by
+  cases req with
+  | pairVerify body =>
+    simp only [procReq] at h
+    obtain ⟨_, rfl⟩ := emit_resp s s c _ r evs rfl rfl h hm
+    simp [useful] at hu
+  | guarded kind =>
+    simp only [procReq] at h
+    obtain ⟨hc, rfl⟩ := emit_resp s _ c _ r evs rfl rfl h hm
+    refine ⟨hc, ?_⟩
+    cases hv : (s.conns c).pv.verified
+    · simp [hv, useful] at hu
+    · rfl
+  | resource =>
+    simp only [procReq] at h
+    split at h
+    · have : evs = [] := by
+        have h' : s.trace ++ [] = s.trace ++ evs := by simpa using h
+        exact (List.append_cancel_left h').symm
+      subst this; cases hm
+    · obtain ⟨_, rfl⟩ := emit_resp s _ c _ r evs rfl rfl h hm
+      simp [useful] at hu
+  | listPairings =>
+    simp only [procReq] at h
+    split at h
+    · obtain ⟨_, rfl⟩ := emit_resp s _ c _ r evs rfl rfl h hm
+      simp [useful] at hu
+    · split at h
+      · obtain ⟨_, rfl⟩ := emit_resp s _ c _ r evs rfl rfl h hm
+        simp [useful] at hu
+      · next hcond =>
+        obtain ⟨hc, _⟩ := emit_resp s _ c _ r evs rfl rfl h hm
+        simp only [not_or, Bool.not_eq_false] at hcond
+        exact ⟨hc, hcond.1⟩
+  | addPairing uname key admin =>
+    simp only [procReq] at h
+    split at h
+    · obtain ⟨_, rfl⟩ := emit_resp s _ c _ r evs rfl rfl h hm
+      simp [useful] at hu
+    · split at h
+      · obtain ⟨_, rfl⟩ := emit_resp s _ c _ r evs rfl rfl h hm
+        simp [useful] at hu
+      · next hcond =>
+        simp only [not_or, Bool.not_eq_false] at hcond
+        split at h
+        · obtain ⟨_, rfl⟩ := emit_resp s _ c _ r evs rfl rfl h hm
+          simp [useful] at hu
+        · obtain ⟨hc, _⟩ := emit_resp s _ c _ r evs rfl rfl h hm
+          exact ⟨hc, hcond.1⟩
+  | removePairing uname =>
+    simp only [procReq] at h
+    split at h
+    · obtain ⟨_, rfl⟩ := emit_resp s _ c _ r evs rfl rfl h hm
+      simp [useful] at hu
+    · split at h
+      · obtain ⟨_, rfl⟩ := emit_resp s _ c _ r evs rfl rfl h hm
+        simp [useful] at hu
+      · next hcond =>
+        simp only [not_or, Bool.not_eq_false] at hcond
+        split at h
+        · obtain ⟨_, rfl⟩ := emit_resp s _ c _ r evs rfl rfl h hm
+          simp [useful] at hu
+        · refine ⟨?_, hcond.1⟩
+          cases rep
+          · simp only [Bool.false_eq_true, if_false] at h
+            exact (emit_resp s _ c _ r evs rfl rfl h hm).1
+          · simp only [if_true] at h
+            simp only [teardown, emit_trace, emit_live, List.append_assoc] at h
+            have := List.append_cancel_left h
+            subst this
+            simp only [List.mem_append, List.mem_singleton, List.mem_map] at hm
+            rcases hm with hm | ⟨x, _, hx⟩
+            · split at hm
+              · next hc => exact hc
+              · cases hm
+            · cases hx
 
 /-! ### pairing-map facts across requests -/
 
@@ -319,6 +497,9 @@ theorem procReq_getKey_none (C : Crypto) (rep : Bool) (s : Sys) (c : Nat) (req :
   cases req with
   | pairVerify body => simpa [procReq] using h
   | guarded kind => simpa [procReq] using h
+  | resource =>
+    simp only [procReq]
+    split <;> simpa using h
   | listPairings =>
     simp only [procReq]
     split
@@ -381,6 +562,12 @@ theorem run_getKey_none (C : Crypto) (rep : Bool) (s : Sys) (ops : List Op) (v :
     cases op with
     | connect c => simp only [step]; split <;> exact h
     | peerClose c => exact h
+    | restart => exact h
+    | ready c ok =>
+      simp only [step]
+      split
+      · split <;> exact h
+      · exact h
     | pair u k a =>
       simp only [step]
       rw [getKey_addPairing_ne _ _ _ _ _ hop]; exact h
